@@ -82,6 +82,27 @@ theorem trailingZeros64_natCast (n : Nat) : trailingZeros64 (n : Int) = ((tz64Au
   · simp [h, tz64Aux_zero]
   · simp [h]
 
+/-! ### slices of integers -/
+
+theorem makeList_natCast {α : Type} (n : Nat) (z : α) : makeList (n : Int) z = .ok (List.replicate n z) := by
+  have : ¬ ((n : Int) < 0) := by omega
+  simp only [makeList, this, ↓reduceIte, Int.toNat_natCast]; rfl
+
+theorem setIdxL_natCast {α : Type} {s : List α} {k : Nat} (h : k < s.length) (x : α) :
+    setIdxL s (k : Int) x = .ok (s.set k x) := by
+  have : (0 : Int) ≤ (k : Int) ∧ (k : Int) < len s := by simp only [len, Int.ofNat_eq_natCast]; omega
+  simp only [setIdxL, this, and_self, ↓reduceIte, Int.toNat_natCast]; rfl
+
+theorem idxL_natCast' {α : Type} {s : List α} {k : Nat} (h : k < s.length) : idxL s (k : Int) = .ok s[k] := by
+  have : ¬ ((k : Int) < 0) := by omega
+  simp only [idxL, this, ↓reduceIte, Int.toNat_natCast, List.getElem?_eq_getElem h]; rfl
+
+/-- writing the last cell of a block of zeros in front of a list -/
+theorem set_replicate_append {α : Type} (a : Nat) (z x : α) (rest : List α) :
+    (List.replicate (a + 1) z ++ rest).set a x = List.replicate a z ++ x :: rest := by
+  rw [List.replicate_succ', List.append_assoc, List.set_append_right _ _ (by simp)]
+  simp
+
 /-! ### the Except monad, as NON-definitional rewrite rules
 
   (`simp` closes a step made with a `rfl`-lemma by a definitional check in the kernel; next to `chk64` on symbolic
